@@ -133,6 +133,14 @@ def o173(ctx):
         ctx.count(1)
         if sort and (sp is None or sp.how != "sort"):
             ctx.finding(q, "row order of the mdoc dose", "with sort_mdoc the doses must be in ascending-tilt order", fn, m)
+        # the doses are handed on as a plain array: dose_filter reads total_dose[z] with the running image number and the wedge lists assign the
+        # column by position -- a pandas column of the (sorted) image table carries the table's row labels, and [z] / assignment then go by label
+        labelled = getattr(r.ret, "lab", None) is not None and getattr(r.ret, "lab")[0] != "pos"
+        ctx.count(1, {"sort_mdoc": sort, "returned as": "labelled column" if labelled else "array (labels stripped)"})
+        if labelled:
+            ctx.finding(q, "type of the returned doses", "the mdoc doses come back as a labelled column of the image table (its row labels are the file positions, "
+                        "permuted by the tilt sort): `total_dose[z]` in dose_filter is then a lookup by label, image z of the sorted stack gets the dose of the "
+                        "z-th image of the file", fn, m)
         srt = [e for e in it.events if e.kind == "call" and e.name == "DataFrame.sort_values"]
         ctx.count(1)
         if sort and not (srt and is_pyconst(srt[0].kwargs.get("by", srt[0].arg(1))) and pyval(srt[0].kwargs.get("by", srt[0].arg(1))) == "TiltAngle"):
@@ -691,4 +699,4 @@ def _obligations():
 
 
 def obligations():
-    return _obligations() + [labels_obligation("C17"), selectors_obligation("C17"), effects_obligation("C17"), plumbing_obligation("C17"), overrides_obligation("C17"), options_obligation("C17"), handlers_obligation("C17")]
+    return _obligations() + [labels_obligation("C17"), selectors_obligation("C17"), mutations_obligation("C17"), effects_obligation("C17"), plumbing_obligation("C17"), overrides_obligation("C17"), options_obligation("C17"), handlers_obligation("C17")]
